@@ -13,6 +13,7 @@ def oracle(log):
     reclen = []
     expect = None
     stats = dict(replays=0, unwinds=0); prev_caps = None
+    alive = []          # (offset, size, number of markers in effect when it was made): memory no unwind has released yet
     for ln in log.split('\n'):
         if ln.startswith('#replay-begin'):
             expect = list(rec); pos = 0; stats['replays'] += 1
@@ -37,8 +38,17 @@ def oracle(log):
             msgs.append('moving the stack changed what it holds: capacity_left %s -> %s, next_capacity %s -> %s (blocks kept for reuse were lost)' % (prev_caps.get('cap'), caps.get('cap'), prev_caps.get('next'), caps.get('next')))
         if caps:
             prev_caps = caps
+        if t[0] in ('ma', 'mfa', 'destroy'):
+            alive = []
         if t[0] in ('a', 't'):
             res = rhs.split(' oom=')[0]
+            rr = res.split()
+            if len(rr) >= 2 and rr[0] == 'ok' and rr[1].lstrip('-').isdigit() and len(t) >= 2 and int(t[1]) > 0:
+                off, size = int(rr[1]), int(t[1])
+                for (o2, s2, d2) in alive:
+                    if off < o2 + s2 and o2 < off + size and len(msgs) < 5:
+                        msgs.append('"%s" returned [%d,+%d), which overlaps [%d,+%d): memory handed out earlier and not released by any unwind since (a marker or an unwind guard gave it up too early)' % (lhs, off, size, o2, s2))
+                alive.append((off, size, len(markers)))
             if expect is not None:
                 if pos < len(expect):
                     if expect[pos] != (lhs, res):
@@ -60,6 +70,7 @@ def oracle(log):
                 if 'U-' in parts[1]:
                     msgs.append('unwind returned a block upstream (must be kept for reuse until shrink_to_fit)')
                 markers = markers[:k + 1]; rec = rec[:reclen[k]]; reclen = reclen[:k + 1]
+            alive = [x for x in alive if x[2] <= k]
     return msgs, stats
 
 
